@@ -15,8 +15,8 @@ use isograph_schema::{
     IsographDatabase, Loadability, NameAndArguments, NormalizationKey, PathToRefetchField,
     RefetchedPathsMap, VariableContext, categorize_field_loadability,
     client_scalar_selectable_selection_set_for_parent_query, flattened_entity_named,
-    refetch_strategy_for_client_scalar_selectable_named, selectable_named,
-    selectable_reader_selection_set, transform_arguments_with_child_context,
+    initial_variable_context, refetch_strategy_for_client_scalar_selectable_named,
+    selectable_named, selectable_reader_selection_set, transform_arguments_with_child_context,
 };
 use pico::MemoRef;
 use prelude::Postfix;
@@ -816,7 +816,14 @@ fn refetched_paths_for_client_scalar_selectable<TCompilationProfile: Compilation
     // Here, path is acting as a prefix. We will receive (for example) foo.bar, and
     // the client field may have a refetch query at baz.__refetch. In this case,
     // this method would return something containing foo.bar.baz.__refetch
-    // TODO return a BTreeSet
+    //
+    // The indexes in the nested client field's own reader AST (refetchQueryIndex,
+    // usedRefetchQueries) are positions in that field's own refetched paths: relative
+    // to the field, in terms of the field's own variables, sorted. So we compute the
+    // paths like that, sort them, and only then prefix and transform each one (as
+    // incorporate_results_of_iterating_into_child does), keeping the order and without
+    // de-duplicating: sorting the transformed paths would give a different order
+    // whenever the values substituted for variables sort differently than the variables.
     let path_set = refetched_paths_with_path(
         db,
         nested_client_scalar_selectable.parent_entity_name,
@@ -826,13 +833,29 @@ fn refetched_paths_for_client_scalar_selectable<TCompilationProfile: Compilation
             nested_client_scalar_selectable.name,
         )
         .expect("Expected selection set to be valid."),
-        path,
-        client_scalar_selectable_variable_context,
+        &mut vec![],
+        &initial_variable_context(&nested_client_scalar_selectable.scalar_selected()),
     );
 
     let mut paths: Vec<_> = path_set.into_iter().collect();
     paths.sort();
     paths
+        .into_iter()
+        .map(|path_in_child| {
+            let mut linked_fields = path.clone();
+            linked_fields.extend(path_in_child.linked_fields.into_iter().map(
+                |normalization_key| {
+                    normalization_key.transform_with_parent_variable_context(
+                        client_scalar_selectable_variable_context,
+                    )
+                },
+            ));
+            PathToRefetchField {
+                linked_fields,
+                field_name: path_in_child.field_name,
+            }
+        })
+        .collect()
 }
 
 fn refetched_paths_with_path<TCompilationProfile: CompilationProfile>(
